@@ -364,11 +364,8 @@ pub fn get_start_port_if_applicable(range: Option<PortRange>) -> Option<u16> {
 
 /// Increment the port by 1.
 pub fn increment_port_option(port: Option<u16>) -> Option<u16> {
-    if let Some(port) = port {
-        let incremented_port = port + 1;
-        return Some(incremented_port);
-    }
-    None
+    // the port after 65535 does not exist: fall back to "no specific port"
+    port.and_then(|port| port.checked_add(1))
 }
 
 /// Make sure the port is not already in use by another node.
